@@ -38,7 +38,7 @@ ActiveOf(state) == {state[i].id : i \in {j \in DOMAIN state : state[j].st # "D"}
 RowFor(state, id) == LET S == {i \in DOMAIN state : state[i].id = id} IN
                      IF S = {} THEN <<>> ELSE <<state[CHOOSE i \in S : TRUE]>>
 
-V(cond, name) == IF cond THEN {} ELSE {name}
+Vc(cond, name) == IF cond THEN {} ELSE {name}
 
 GInit(hdr) ==
     [hdr |-> hdr, ids |-> <<>>, status |-> <<>>, view |-> <<>>, told |-> <<>>,
